@@ -710,6 +710,13 @@ def vf_in(a, container):
         if not terms:
             return False
         return ctx().decide(z3.Or(*terms))
+    if type(a).__name__ == "SymStr" and builtins.isinstance(container, (dict, set, frozenset, list, tuple)):
+        if a.concrete():
+            return a.to_str() in container
+        for m in container:
+            if builtins.isinstance(m, str) and a.equals(m):
+                return True
+        return False
     return a in container
 
 
